@@ -103,7 +103,8 @@ def record_workspace(rng):
     # the module ends in an identifier, with or without a final newline
     eof_nl = "\n" if rng.random() < 0.4 else ""
     # … and has a reference behind a string literal that contains `//` and one behind a `/` operator on the same line
-    ma = (ty + f"pub fn fresh() {{\n  Rec({f1}: 1, {f2}: 2)\n}}\npub const base = 1\n"
+    # (a comment with 2-, 3-byte characters in front: byte offsets and character counts differ by 16 at the end of the file)
+    ma = ("// данные ✓ 日本語 €\n" + ty + f"pub fn fresh() {{\n  Rec({f1}: 1, {f2}: 2)\n}}\npub const base = 1\n"
           "pub fn url() {\n  #(\"https://example.org/a\", base, 4 / base)\n}\n// base is not a reference here\n"
           "pub const last = base" + eof_nl)
     twin = (f"pub type Mine {{\n  Rec({f1}: Int)\n}}\npub fn mine() {{\n  Rec({f1}: 5)\n}}\n" if local_twin else "")
@@ -115,7 +116,7 @@ def record_workspace(rng):
           f"pub fn again() {{\n  let r = mb.make()\n  r.{f1}\n}}\n")
     ws = PlainWs([("/w/p/src/ma.gleam", ma), ("/w/p/src/mb.gleam", mb), ("/w/p/src/mc.gleam", mc), ("/w/p/gleam.toml", 'name = "p"\n')])
     def at(fi, text, needle, k=0):
-        return (fi, text.index(needle) + k)
+        return (fi, len(text[:text.index(needle) + k].encode("utf-8")))      # byte offset
     if not two:      # with a second variant carrying the label, `r.f` denotes the common field of both
         group = [at(0, ma, f"Rec({f1}: Int", 4), at(0, ma, f"Rec({f1}: 1", 4),
                  at(1, mb, f"{f1}: 1)", 0), at(1, mb, f"r.{f1}", 2), at(1, mb, f"ma.Rec({f1}: a", 7),
@@ -129,6 +130,25 @@ def record_workspace(rng):
     ws.groups = getattr(ws, "groups", []) + [("Rec", cgroup)]
     if local_twin:
         ws.groups.append(("Rec", [at(1, mb, f"  Rec({f1}: Int)", 2), at(1, mb, f"  Rec({f1}: 5)", 2)]))
+    return ws
+
+
+def variant_label_workspace(rng):
+    """a label shared by the first and another variant but not by all (`Origin` has none): each variant's field is its own
+    symbol; labelled patterns and constructions of both variants, in the declaring module and through a qualifier"""
+    lab = rng.choice(["name", "tag", "id"])
+    o1, o2 = rng.sample(["radius", "side", "w"], 2)
+    ma = (f"pub type Shape {{\n  Circle({o1}: Int, {lab}: String)\n  Square({o2}: Int, {lab}: String)\n  Origin\n}}\n\n"
+          f"pub fn mk() {{\n  Square({o2}: 2, {lab}: \"s\")\n}}\n\npub fn mc() {{\n  Circle({lab}: \"c\", {o1}: 3)\n}}\n")
+    mb = (f"import ma\n\npub fn f(s: ma.Shape) {{\n  case s {{\n    ma.Circle({lab}: n, ..) -> n\n    ma.Square({lab}: m, {o2}: _) -> m\n    ma.Origin -> \"\"\n  }}\n}}\n\n"
+          f"pub fn g() {{\n  ma.Square({lab}: \"q\", {o2}: 1)\n}}\n\npub fn h() {{\n  ma.Circle({o1}: 1, {lab}: \"c\")\n}}\n")
+    ws = PlainWs([("/w/p/src/ma.gleam", ma), ("/w/p/src/mb.gleam", mb), ("/w/p/gleam.toml", 'name = "p"\n')])
+    def at(fi, text, needle, k=0):
+        return (fi, len(text[:text.index(needle) + k].encode("utf-8")))      # byte offset
+    ws.groups = [
+        (lab, [at(0, ma, f"Int, {lab}: String)\n  Square", 5), at(0, ma, f"Circle({lab}: \"c\"", 7), at(1, mb, f"ma.Circle({lab}: n", 10), at(1, mb, f"{o1}: 1, {lab}: \"c\"", len(o1) + 5)]),
+        (lab, [at(0, ma, f"{o2}: Int, {lab}: String", len(o2) + 7), at(0, ma, f"{o2}: 2, {lab}: \"s\"", len(o2) + 5), at(1, mb, f"ma.Square({lab}: m", 10), at(1, mb, f"ma.Square({lab}: \"q\"", 10)]),
+    ]
     return ws
 
 
@@ -149,7 +169,7 @@ def deep_module_workspace(rng):
             "pub fn pick(r: router.Route) {\n  case r {\n    router.Home -> 1\n    router.About(id: n) -> n\n  }\n}\n")
     ws = PlainWs([(f"/w/p/src/{path}.gleam", router), (f"/w/p/src/{path2}.gleam", session), ("/w/p/src/main.gleam", main), ("/w/p/gleam.toml", 'name = "p"\n')])
     def at(fi, text, needle, k=0):
-        return (fi, text.index(needle) + k)
+        return (fi, len(text[:text.index(needle) + k].encode("utf-8")))      # byte offset
     ws.groups = [
         ("handle", [at(0, router, "fn handle", 3), at(2, main, "router.handle(", 7)]),
         ("About", [at(0, router, "  About(id", 2), at(0, router, "    About(id)", 4), at(2, main, "router.About(router", 7), at(2, main, "router.About(id: n", 7)]),
@@ -223,6 +243,7 @@ def run_c06(res, tier, seed):
     rrng = random.Random(seed + 6)
     wss += [record_workspace(rrng) for _ in range(12 if tier == "quick" else 100)]
     wss += [deep_module_workspace(rrng) for _ in range(6 if tier == "quick" else 60)]
+    wss += [variant_label_workspace(rrng) for _ in range(6 if tier == "quick" else 60)]
     run_expected_groups(res, "C06", wss)
     all_toks = stage1(wss)
     # group tokens by definition
